@@ -54,7 +54,7 @@ fn simple_targets(m: &Model, al: &Alphabet) -> Vec<TSimple> {
         let len = r.len();
         let mut offs: Vec<Off> = Vec::new();
         if r.id == "r0" {
-            offs.push(Off::simple(0, 2));
+            offs.push(Off::simple(0, 3));
             offs.push(Off::simple(3, 5));
             offs.push(Off::simple(0, 5));
             offs.push(Off { b: Cur::E(-2), e: Cur::E(0) });
@@ -112,12 +112,12 @@ fn complex_targets(m: &Model, al: &Alphabet) -> Vec<Target> {
     let mut v = Vec::new();
     let t = |res: &str, b, e| TSimple::Text { res: res.to_string(), off: Off::simple(b, e) };
     if m.res_idx("r0").is_some() {
-        v.push(Target { kind: TKind::Multi, parts: vec![t("r0", 0, 2), t("r0", 3, 5)] });
-        v.push(Target { kind: TKind::Directional, parts: vec![t("r0", 3, 5), t("r0", 0, 2)] });
+        v.push(Target { kind: TKind::Multi, parts: vec![t("r0", 0, 3), t("r0", 3, 5)] });
+        v.push(Target { kind: TKind::Directional, parts: vec![t("r0", 3, 5), t("r0", 0, 3)] });
         if al.rich {
-            v.push(Target { kind: TKind::Composite, parts: vec![t("r0", 3, 5), t("r0", 0, 2)] });
+            v.push(Target { kind: TKind::Composite, parts: vec![t("r0", 3, 5), t("r0", 0, 3)] });
             v.push(Target { kind: TKind::Multi, parts: vec![t("r0", 0, 5), TSimple::Res("r0".into())] });
-            v.push(Target { kind: TKind::Composite, parts: vec![t("r0", 0, 2), t("r0", 2, 2), t("r0", 3, 5)] });
+            v.push(Target { kind: TKind::Composite, parts: vec![t("r0", 0, 3), t("r0", 2, 2), t("r0", 3, 5)] });
         }
     }
     let live = m.live_anns();
